@@ -319,9 +319,13 @@ pub fn configs(tier: crate::registry::Tier, _seed: u64) -> Vec<crate::registry::
     }
     v.push(entry(Hnf { ring: RingSel::Z, m: 2, n: 2, b: 1, flags: [false, false] }, 300, 40.0));
     v.push(entry(Hnf { ring: RingSel::Z, m: 2, n: 2, b: 1, flags: [true, false] }, 300, 40.0));
-    for (ring, m, n, b, cls, secs) in [(RingSel::Z, 1, 2, 3, 50, 10.0), (RingSel::Z, 2, 2, 2, 600, 120.0), (RingSel::Z, 2, 3, 1, 600, 120.0), (RingSel::Gauss, 2, 2, 1, 600, 120.0), (RingSel::Eisen, 2, 1, 1, 400, 60.0), (RingSel::Z, 3, 3, 2, 300, 100.0), (RingSel::Z, 4, 4, 2, 200, 150.0)] {
+    for (ring, m, n, b, cls, secs) in [(RingSel::Z, 1, 2, 3, 50, 10.0), (RingSel::Z, 2, 2, 2, 600, 120.0), (RingSel::Z, 2, 3, 1, 600, 120.0), (RingSel::Gauss, 2, 2, 1, 600, 120.0), (RingSel::Eisen, 2, 1, 1, 400, 60.0), (RingSel::Z, 3, 3, 2, 300, 100.0)] {
         v.push(entry(Lll { ring, m, n, b }, cls, secs));
     }
+    // 4 and 5 rows: the queries are beyond the solver; solver-sampled inputs only (bug hunting, nothing is reported as proven)
+    v.push(crate::registry::sampled(Lll { ring: RingSel::Z, m: 4, n: 4, b: 9 }, if tier == Tier::Thorough { 400 } else { 60 }, 200.0));
+    v.push(crate::registry::sampled(Lll { ring: RingSel::Z, m: 5, n: 5, b: 9 }, if tier == Tier::Thorough { 200 } else { 25 }, 200.0));
+    v.push(crate::registry::sampled(Hnf { ring: RingSel::Z, m: 4, n: 4, b: 9, flags: [true, true] }, if tier == Tier::Thorough { 400 } else { 60 }, 200.0));
     if tier == Tier::Thorough {
         for (ring, m, n, b, cls, secs) in [(RingSel::Z, 2, 2, 4, 5000, 900.0), (RingSel::Z, 3, 3, 1, 5000, 900.0), (RingSel::Z, 3, 2, 2, 5000, 900.0), (RingSel::Gauss, 2, 2, 1, 5000, 900.0), (RingSel::Eisen, 2, 2, 1, 5000, 900.0)] {
             v.push(entry(Hnf { ring, m, n, b, flags: [true, true] }, cls, secs));
